@@ -520,7 +520,7 @@ func (g *Gen) Structured() Input {
 			ents = append(ents, cloneEnts(ents)...)
 			return g.blobInput(b, "toc:name-dup-all", tocText(1, ents))
 		case 3:
-			n := []int{50, 1000, 9999, 10000, 10001, 10002, 20000}[r.Intn(g.deepChoices())]
+			n := []int{50, 300, 9999, 10000, 10001, 10002, 20000}[r.Intn(g.deepChoices())] // the db store is cubic in the depth (known finding): keep generated trees shallow
 			ents = append(ents, E(deepName(n, "f"), pick("reg", "dir", "symlink"), "size", 0))
 			return g.blobInput(b, fmt.Sprintf("toc:deep-path-%d", n), tocText(1, ents))
 		case 4:
